@@ -8,7 +8,8 @@ CONSTANTS
   MaxFaults = 2
   Victims = {r1, r2}
   UniqueIds = TRUE
+  CleanCut = FALSE
 INIT Init
 NEXT Next
 CHECK_DEADLOCK FALSE
-INVARIANTS TypeOK Correlation OneClientPerResponse AtMostOnce HandOffOnce Isolation Survives BadGateway
+INVARIANTS TypeOK Correlation OneClientPerResponse AtMostOnce HandOffOnce Isolation Survives BadGateway NoSilentTruncation
